@@ -8,7 +8,7 @@ UCI-level outcome is checked: exactly one bestmove per go, exit status 0 within 
 between a bestmove and the next go."""
 import os, subprocess, tempfile, threading, time, json
 from concurrent.futures import ThreadPoolExecutor
-import vlib
+import vlib, locktie
 
 WALL = float(os.environ.get("VERIF_C10_WALL", "40"))          # wall bound of one session (seconds)
 FEN_MID = "r1bq1rk1/pp2bppp/2n1pn2/2pp4/3P1B2/2PBPN2/PP1N1PPP/R2QK2R w KQ - 0 8"
@@ -361,6 +361,9 @@ def run(ctx):
     quick = ctx.tier == "quick"
     if ctx.replay:
         rp = ctx.replay["replay"]
+        if rp.get("kind") == "locktie":
+            locktie.regenerate(ctx, "C10")
+            return
         vlib.lake_build(["driver"])
         for attempt in range(1 if rp.get("kind") == "lean-build" else 5):
             s = replay_session(ctx, rp, "plain")
@@ -369,6 +372,8 @@ def run(ctx):
                 break
         return
     vlib.lean_obligations(ctx)
+    # static tie: wait / notify / write facts regenerated from the current source, Bridge/WaitFacts.lean proved over them
+    lt = locktie.regenerate(ctx, "C10")
     bdir = vlib.cxx_build("plain", ("texel", "mknet"))
     net = vlib.net_file(bdir, "material", 1)
     binary = os.path.join(bdir, "texel")
@@ -376,6 +381,7 @@ def run(ctx):
                        "setoption Threads between searches, options during a search, quit or EOF during search} x Threads 1..8 x seeded "
                        "random yields at the hook points; one evaluation = one engine process run to exit; distinct = distinct (script, Threads, command list)")
     ctx.assumptions += ["std::mutex / std::condition_variable / std::thread::join behave as specified (trusted)",
+                        "the model's atomic wait / notify steps assume that a wait predicate changes only under the waiter's mutex: proved for the current source over lexically extracted facts (Bridge/WaitFacts.lean; limits of the lexical analysis in notes/C10.md)",
                         "the hook events are logged inside the critical section they describe, so the log order is a linearisation (notes/C10.md)",
                         "lock-free loads of the atomic flags are modelled as returning any value held between the pre-read and post-read hook events",
                         "OS scheduling plus seeded yields only samples interleavings; the theorems cover all of them for the model"]
@@ -392,7 +398,9 @@ def run(ctx):
     if cc.returncode != 0:
         ctx.violation("cannot build harness/slowwait.c: " + cc.stderr[-300:], {"kind": "harness-build"}, no_input=True)
     else:
-        sw = make_sessions(ctx, binary, net, 6 if quick else 20, [1, 3] if quick else [1, 2, 3, 5, 8], want_events=False, scripts={"slow-waiter": sc_slow_waiter})
+        # when the static wait-predicate theorem is broken, look harder for the failing schedule (a lost wake-up) with this family
+        boost = 3 if not lt["ok"] else 1
+        sw = make_sessions(ctx, binary, net, (6 if quick else 20) * boost, [1, 3] if quick else [1, 2, 3, 5, 8], want_events=False, scripts={"slow-waiter": sc_slow_waiter})
         for x in sw:
             x.env["LD_PRELOAD"] = shim; x.env["VERIF_SLOWWAIT_US"] = "2000"
             x.env["TEXEL_VERIF_YIELD"] = f"{ctx.rng.randrange(1 << 30)}:500"
